@@ -153,3 +153,85 @@ Example wings_example :
   let ttL := mk_hs 4 false true true true 3 false in let ttR := mk_hs 4 true true true true 3 false in
   wings_of [mainL; mainR; outL; outR; fin; ttL; ttR] = Some [[mainR; mainL; outL; outR]; [fin]; [ttR; ttL]].
 Proof. vm_compute. reflexivity. Qed.
+
+(* ---- every member of a wing is recorded as assigned (wing_ID <> -1), so what a later pass takes (pass_fresh: not in assigned) is in no
+   earlier wing ---- *)
+Lemma pass_members origs o jm l : forall wing assigned added,
+  Forall (fun s => In s assigned) wing ->
+  let '(w, a, _) := pass origs o jm l wing assigned added in Forall (fun s => In s a) w.
+Proof.
+  induction l as [|s r IH]; intros wing assigned added Hw; cbn [pass]; [exact Hw|].
+  destruct (isin s origs || isin s assigned || negb (cont s)); [apply IH; exact Hw|].
+  destruct (tries o jm wing s) as [|k]; [apply IH; exact Hw|].
+  apply IH. apply Forall_app; split.
+  - eapply Forall_impl; [|exact Hw]. intros x Hx. right; exact Hx.
+  - apply Forall_forall. intros x Hx. apply repeat_spec in Hx. subst x. left; reflexivity.
+Qed.
+
+Lemma grow_members fuel origs o jm segs : forall wing assigned w a,
+  Forall (fun s => In s assigned) wing -> grow fuel origs o jm segs wing assigned = Some (w, a) -> Forall (fun s => In s a) w.
+Proof.
+  induction fuel as [|f IH]; intros wing assigned w a Hw; cbn [grow]; [discriminate|].
+  pose proof (pass_members origs o jm segs wing assigned false Hw) as Hp.
+  destruct (pass origs o jm segs wing assigned false) as [[w1 a1] ad]. destruct ad.
+  - apply IH. exact Hp.
+  - intros E. injection E as <- <-. exact Hp.
+Qed.
+
+Lemma start_wing_members segs o assigned :
+  let '(w, a) := start_wing segs o assigned in Forall (fun s => In s a) w.
+Proof.
+  unfold start_wing. destruct (mir o && y0 o).
+  - destruct (twin segs o) as [t|].
+    + constructor; [right; left; reflexivity|]. constructor; [left; reflexivity|constructor].
+    + constructor; [left; reflexivity|constructor].
+  - constructor; [left; reflexivity|constructor].
+Qed.
+
+Lemma start_wing_grows segs o assigned : exists new, snd (start_wing segs o assigned) = new ++ assigned.
+Proof.
+  unfold start_wing. destruct (mir o && y0 o); [destruct (twin segs o) as [t|]|].
+  - exists [t; o]. reflexivity.
+  - exists [o]. reflexivity.
+  - exists [o]. reflexivity.
+Qed.
+
+Lemma build_members segs origs : forall todo wings assigned ws a,
+  Forall (Forall (fun s => In s assigned)) wings ->
+  build segs origs todo wings assigned = Some (ws, a) -> Forall (Forall (fun s => In s a)) ws.
+Proof.
+  induction todo as [|o r IH]; intros wings assigned ws a Hm; cbn [build].
+  - intros E. injection E as <- <-. exact Hm.
+  - pose proof (start_wing_members segs o assigned) as Hs.
+    destruct (start_wing_grows segs o assigned) as (n0 & Hg0).
+    destruct (start_wing segs o assigned) as [w0 a0]. cbn [snd] in Hg0.
+    destruct (grow (S (length segs)) origs o (y0 o) segs w0 a0) as [[w a1]|] eqn:Eg; [|discriminate].
+    pose proof (grow_members _ _ _ _ _ _ _ _ _ Hs Eg) as Hw.
+    apply grow_ext in Eg. destruct Eg as (e & n & E1 & E2 & _ & _).
+    apply IH. apply Forall_app; split; [|constructor; [exact Hw|constructor]].
+    assert (Hgrow : forall x, In x assigned -> In x a1).
+    { intros x Hx. subst a1 a0. apply in_or_app. right. apply in_or_app. right. exact Hx. }
+    eapply Forall_impl; [|exact Hm]. intros wg Hwg. eapply Forall_impl; [|exact Hwg]. intros x Hx. apply Hgrow. exact Hx.
+Qed.
+
+(* every member of every wing is recorded as assigned *)
+Theorem wings_members_assigned segs ws a :
+  build segs (originals segs) (originals segs) [] [] = Some (ws, a) -> Forall (Forall (fun s => In s a)) ws.
+Proof. apply build_members. constructor. Qed.
+
+(* hence: what a pass takes for a later wing is key-different from every member of the wings built so far *)
+Theorem pass_takes_from_no_earlier_wing origs o jm l wings wing assigned added :
+  Forall (Forall (fun s => In s assigned)) wings ->
+  let '(_, a, _) := pass origs o jm l wing assigned added in
+  exists new, a = new ++ assigned /\
+    forall s, In s new -> forall wg m, In wg wings -> In m wg -> keyeq s m = false.
+Proof.
+  intros Hm. pose proof (pass_fresh origs o jm l wing assigned added) as Hf.
+  destruct (pass origs o jm l wing assigned added) as [[w a] ad]. destruct Hf as (new & Ea & Hn).
+  exists new. split; [exact Ea|]. intros s Hs wg m Hwg Hmw.
+  apply in_split in Hs. destruct Hs as (pre & post & E). destruct (Hn pre s post E) as (H1 & _ & _).
+  unfold isin in H1. rewrite existsb_app in H1. apply orb_false_iff in H1. destruct H1 as [_ H1].
+  rewrite Forall_forall in Hm. specialize (Hm wg Hwg). rewrite Forall_forall in Hm. specialize (Hm m Hmw).
+  destruct (keyeq s m) eqn:K; [|reflexivity].
+  assert (existsb (keyeq s) assigned = true) by (apply existsb_exists; exists m; split; assumption). congruence.
+Qed.
